@@ -68,7 +68,7 @@ def openWith (rc : Conn → Conn) (timed : Bool) (c : Conn) : Conn :=
   if c.fd then c
   else if c.present then
     { c with fd := true, hsLeft := c.hsSteps, count := 0, cbs := c.cbs ++ [.connected] }
-  else rc { c with attempts := if timed then c.attempts + 1 else c.attempts }
+  else rc { c with attempts := if timed then c.attempts + 1 else 0 }
 
 inductive Ev
   | lose        -- reader sees EOF / read error, or a write fails: `disconnect(reconnect=True)`
